@@ -376,10 +376,19 @@ func readObs(s *c10Sys) string {
 func (s *c10Sys) startRead(n int) {
 	r := s.ref
 	ids := make([]uint16, n)
-	for i := range ids {
-		r.nextID++
-		ids[i] = r.nextID
+	// identifiers as the broker's limiter hands them out after a reconnect: the lowest ones not
+	// held by an in-flight entry - so the in-flight part of the list is not sorted by id
+	used := map[uint16]bool{}
+	for _, it := range r.items {
+		used[it.id] = true
 	}
+	next := uint16(0)
+	for i := range ids {
+		for next++; used[next]; next++ {
+		}
+		ids[i] = next
+	}
+	r.nextID = next
 	pids := make([]packets.PacketID, n)
 	for i := range ids {
 		pids[i] = ids[i]
@@ -906,6 +915,9 @@ func runC10(c *explore.Ctx) {
 		// expired (its message's own expiry / the in-flight expiry; the front is a PUBREL)
 		{opInitClean, opRI1, 1, 3, opRead2, opAdv6},
 		{opInitClean, opRI1, 2, 1, opRead2, opReplace, opAdv31},
+		// two in-flight entries whose identifiers are not in list order (a lower id was handed
+		// out again behind a higher one)
+		{opInitClean, opRI1, 1, 1, opRead2, opRemOld, 1, opRead1},
 	}
 	// redis backend: same alphabet, reference and oracles; the "private list" is the
 	// redis list itself (read from the RESP server's memory after every op)
@@ -922,7 +934,7 @@ func runC10(c *explore.Ctx) {
 			units = append(units, unit{cf, []int{opInitClean, a}, "redis"})
 		}
 		for _, p := range directed {
-			if cf.max < 2 && len(p) == 7 && p[5] == opReplace {
+			if cf.max < 2 && (len(p) == 7 && p[5] == opReplace || len(p) == 8 && p[5] == opRemOld) {
 				continue // needs two entries
 			}
 			units = append(units, unit{cf, p, "redis"})
@@ -937,7 +949,7 @@ func runC10(c *explore.Ctx) {
 		// directed non-initial states (resumed sessions with in-flight entries), explored
 		// breadth-first from there
 		for _, p := range directed {
-			if cf.max < 2 && len(p) == 7 && p[5] == opReplace {
+			if cf.max < 2 && (len(p) == 7 && p[5] == opReplace || len(p) == 8 && p[5] == opRemOld) {
 				continue // needs two entries
 			}
 			units = append(units, unit{cf, p, "mem"})
